@@ -336,8 +336,21 @@ func (vc *VC) evalIndex(v SVal, i string, env *Env) SVal {
 	return SVal{}
 }
 
+// autoDeref: a pointer to a slice or string (captured variable of a closure) reads as its value.
+func (vc *VC) autoDeref(v SVal, env *Env) SVal {
+	if v.K == KPtr && v.T != nil {
+		if pt, ok := v.T.Underlying().(*types.Pointer); ok {
+			switch pt.Elem().Underlying().(type) {
+			case *types.Slice, *types.Basic:
+				return vc.loadSpec(v, pt.Elem(), env.mem)
+			}
+		}
+	}
+	return v
+}
+
 func (vc *VC) evalCall(x *ECall, env *Env) SVal {
-	arg := func(i int) SVal { return vc.eval(x.Args[i], env) }
+	arg := func(i int) SVal { return vc.autoDeref(vc.eval(x.Args[i], env), env) }
 	switch x.Fn {
 	case "len":
 		v := arg(0)
@@ -412,6 +425,26 @@ func (vc *VC) evalCall(x *ECall, env *Env) SVal {
 	case "typeis":
 		// typeis(x, N): dynamic type id
 		unsup("typeis")
+	}
+	// package-level abbreviation (define)
+	if mac, ok := vc.eng.contracts.Macros[x.Fn]; ok {
+		if len(mac.Params) != len(x.Args) {
+			unsup("define %s takes %d arguments, got %d", mac.Name, len(mac.Params), len(x.Args))
+		}
+		c := env.child()
+		for i, p := range mac.Params {
+			c.vars[p] = arg(i)
+		}
+		if c.old != nil {
+			// inside old(...) the parameters keep their values; memory is the old one
+			o := c.old.child()
+			for i, p := range mac.Params {
+				o.vars[p] = c.vars[p]
+				_ = i
+			}
+			c.old = o
+		}
+		return vc.eval(mac.E, c)
 	}
 	// spec function from the prelude
 	sf, ok := vc.eng.specFuncs[x.Fn]
